@@ -43,6 +43,79 @@ MODULES = {'ebb_serial': ebb_serial, 'ebb_motion': ebb_motion,
            'ebb3_serial': ebb3_serial, 'ebb3_motion': ebb3_motion}
 
 
+# ---------------------------------------------------------------------------
+# isolation between scenarios: the code under test must start every scenario from the state it has
+# right after import.  Module-level containers and memoising caches (a refactor may add them) would
+# otherwise carry facts from one scenario into the next and make a run depend on its worker's past.
+
+_PRISTINE = {}
+
+
+def _snapshot_modules():
+    import copy
+    for name, mod in MODULES.items():
+        snap = {}
+        for k, v in vars(mod).items():
+            if k.startswith('__'):
+                continue
+            if isinstance(v, (dict, list, set, bytearray)):
+                try:
+                    snap[k] = (v, copy.deepcopy(v))
+                except Exception:
+                    pass
+        _PRISTINE[name] = (set(vars(mod)), snap)
+
+
+def _clear_caches(ns):
+    for v in list(ns.values()):
+        cc = getattr(v, 'cache_clear', None)
+        if callable(cc):
+            try:
+                cc()
+            except Exception:
+                pass
+
+
+def reset_module_state():
+    for name, mod in MODULES.items():
+        names, snap = _PRISTINE[name]
+        ns = vars(mod)
+        for k in [k for k in ns if k not in names]:
+            v = ns[k]
+            # a name that appeared after import (lazily created cache): drop it
+            if not callable(v) or hasattr(v, 'cache_clear'):
+                del ns[k]
+        for k, (obj, orig) in snap.items():
+            if ns.get(k) is not obj:
+                ns[k] = obj
+            if obj != orig:
+                import copy
+                fresh = copy.deepcopy(orig)
+                if isinstance(obj, dict):
+                    obj.clear()
+                    obj.update(fresh)
+                elif isinstance(obj, list):
+                    obj[:] = fresh
+                elif isinstance(obj, set):
+                    obj.clear()
+                    obj.update(fresh)
+                elif isinstance(obj, bytearray):
+                    obj[:] = fresh
+        _clear_caches(ns)
+        for v in list(ns.values()):
+            if isinstance(v, type) and getattr(v, '__module__', None) == mod.__name__:
+                _clear_caches(vars(v))
+    # containers created after import at module level
+    for name, mod in MODULES.items():
+        names, snap = _PRISTINE[name]
+        for k, v in list(vars(mod).items()):
+            if k not in names and isinstance(v, (dict, list, set)):
+                v.clear()
+
+
+_snapshot_modules()
+
+
 def enc(v, depth=0):
     """Encode a Python value returned by the code under test as JSON data."""
     if v is None or isinstance(v, (bool, int, str)):
@@ -120,6 +193,7 @@ def obj_snapshot(obj):
 
 def execute(scn, want_events=False):
     """Run the scenario.  Returns a History."""
+    reset_module_state()
     world = World(scn)
     hist = History()
     objs = world.objects            # EBB3-layer objects by index
@@ -129,7 +203,7 @@ def execute(scn, want_events=False):
             for op in scn['ops']:
                 rec = {'id': op['id'], 'op': op, 'ret': None, 'exc': None, 'exc_msg': None,
                        'io': [], 'wire': {}, 'writes': [], 'write_owner': [], 'reads': [], 'trace': [],
-                       'requests': [], 'faults_fired': [], 'opened': [], 'closed': [], 'enums': 0,
+                       'requests': [], 'faults_fired': [], 'opened': [], 'open_attempts': [], 'closed': [], 'enums': 0,
                        't0': world.now, 'before': None, 'after': None}
                 hist.ops.append(rec)
                 kind = op['op']
@@ -195,6 +269,10 @@ def execute(scn, want_events=False):
                             ln = world.link_by_port(op['port'])
                             ln.device.power_on()
                             ln.rx.clear()
+                        elif what == 'replace_device':
+                            # another device now answers on this port name (board swapped while
+                            # nothing holds the port open; port names are reused by the OS)
+                            world.replace_device(world.link_by_port(op['port']), op['spec'])
                         elif what == 'reorder':
                             order = op['order']
                             world.links = [world.links[i] for i in order]
@@ -243,6 +321,8 @@ def execute(scn, want_events=False):
                      'rx': bytes(ln.device.rx_bytes).decode('latin-1'),
                      'state': ln.device.state(), 'plugged': ln.plugged,
                      'held': ln.handle is not None and ln.handle.is_open} for ln in world.links]
+    hist.all_devices = [{'port': port, 'spec': spec, 'kind': dev.kind, 'log': dev.log,
+                         'rx': bytes(dev.rx_bytes).decode('latin-1')} for port, spec, dev in world.incarnations]
     hist.handles = [{'hid': h.id, 'port': h.port, 'open': h.is_open, 'closed_calls': h.closed_calls}
                     for h in world.handles]
     if want_events:
